@@ -51,6 +51,10 @@ def instances(tier):
     for fam in (("euler",) if tier == "quick" else ("euler", "rk4", "sympl_euler")):
         out.append(dict(id="shallow-copies-%s-N2" % fam, family=fam, N=2, history="shallow-copies",
                         budget=dict(wall_s=80 if tier == "quick" else 600, max_paths=4000 if tier == "quick" else 40000)))
+    # a step callback assigns a new (possibly much longer) working step after every step: the grid still ends on the target without passing it
+    for fam in (("euler",) if tier == "quick" else ("euler", "rk4", "sympl_euler")):
+        out.append(dict(id="callback-sets-dt-%s-N2" % fam, family=fam, N=2, history="callback-dt",
+                        budget=dict(wall_s=80 if tier == "quick" else 600, max_paths=4000 if tier == "quick" else 40000)))
     # runs that monitor events: the real event section of integrate (roll-back and re-recording of steps, buffer growth) with the events oracle
     for fam, evs, dense in ((("euler", "n", False), ("euler", "nn", True)) if tier == "quick" else (("euler", "n", False), ("euler", "nn", True), ("rk4", "nn", False), ("sympl_euler", "n", True))):
         out.append(dict(id="events-%s-%s-%s-N2" % (fam, evs, "dense" if dense else "nodense"), family=fam, N=2, history="events", events=list(evs), dense=dense,
@@ -91,6 +95,23 @@ def scenario(c, inst):
             c.check("c03.first_state_is_y0", c.all([c.eq(u, v) for u, v in zip(flat(c, a.y[0]), y0)]))
             spans.segment_checks(c, "c03", a, 0, t0, tf)
             spans.pairing_checks(c, "c03", a, cb)
+            return
+        if hist == "callback-dt":
+            g = c.real("g")
+            c.assume(g >= adt)                 # the steps only get longer: at most N steps to the target
+            c.assume(g <= 256)
+            capcb = spans.cap_callback(c, cap, kind)
+
+            def setdt(system):
+                system.dt = g
+            st, r = run(a.integrate, callback=[capcb, setdt])
+            if st == "exc":
+                cause = getattr(r, "__cause__", None)
+                c.check("c03.cbdt.terminates_within_bound" if isinstance(cause, StepCap) else "c03.cbdt.no_exception", False, info=repr(r) + " / " + repr(cause))
+                return
+            c.note("n_rows", len(a.t))
+            c.check("c03.cbdt.status_completed", spans.status_ok(a))
+            spans.segment_checks(c, "c03.cbdt", a, 0, t0, tf)
             return
         if hist == "nan-attempt":
             # the rhs leaves its domain at a trial point of the first attempt (it RETURNS NaN, no exception) - with the REAL step controller:
